@@ -218,6 +218,17 @@ static void roundtrip(Fmt f, const Json& v, Rng& r, const char* policy) {
     if (!vd.refused) { H.count_(std::string(fmt_name[f]) + ".judged"); if (pack) H.count_("cbor.judged_pack_strings"); }
 }
 
+// every encode route (bytes, stream) x decode route (bytes, stream, cursor) for one value: used for the fixed catalogue, where a
+// route-specific fault (e.g. in a stream sink once its buffer overflows) must not depend on the draw of the routes
+template <class Json>
+static void roundtrip_all_routes(Fmt f, const Json& v, const char* policy) {
+    for (int eroute = 0; eroute < 2; ++eroute) for (int droute = 0; droute < 3; ++droute) for (int pk = 0; pk < (f == CBOR ? 2 : 1); ++pk) {
+        Verdict vd = judge(f, v, eroute, droute, pk != 0);
+        if (!vd.sig.empty()) H.violation(vd.sig, J().str("policy", policy).num("enc_route", eroute).num("dec_route", droute).boolean("pack_strings", pk != 0).str("value", describe(v).substr(0, 600)).str("bytes", hex(vd.bytes).substr(0, 600)).str("why", vd.why).done());
+        else if (!vd.refused) H.count_(std::string(fmt_name[f]) + ".judged_all_routes");
+    }
+}
+
 // ---- typed vectors ---------------------------------------------------------------------------------------
 template <class T> static T gen_elem(Rng& r) {
     if (std::is_floating_point<T>::value) { double d = gen_double_finite(r); if (sizeof(T) == 4) d = (double)(float)d; if (r.chance(1, 30)) d = INFINITY; return (T)d; }
@@ -343,6 +354,14 @@ int main(int argc, char** argv) {
             for (int f = 0; f < 4; ++f) { roundtrip<json>((Fmt)f, x, r, "json"); roundtrip<json>((Fmt)f, obj, r, "json"); roundtrip<ojson>((Fmt)f, oobj, r, "ojson");
                 if (f != BSON) roundtrip<json>((Fmt)f, arr, r, "json"); }
             H.count_("regress.length_boundaries");
+        }
+        // documents larger than the 16 KiB buffers of the stream sinks/sources: long text and byte strings, alone, repeated and mixed with small items
+        for (size_t n : {16383u, 16384u, 16385u, 20000u, 40000u, 70000u}) {
+            json one(json_object_arg); one.try_emplace("s", std::string(n, 'q'));
+            json many(json_array_arg); for (int i = 0; i < 5; ++i) { many.push_back(std::string(n / 2 + (size_t)i, (char)('a' + i))); many.push_back(i); many.push_back(json(byte_string_arg, std::vector<uint8_t>(n / 3 + (size_t)i, (uint8_t)i))); }
+            json doc(json_object_arg); doc.try_emplace("m", many); doc.try_emplace("tail", "end");
+            for (int f = 0; f < 4; ++f) { roundtrip_all_routes<json>((Fmt)f, one, "json"); roundtrip_all_routes<json>((Fmt)f, doc, "json"); }
+            H.count_("regress.large_documents");
         }
     };
     return H.run(body, regress);
